@@ -64,7 +64,11 @@ structure PSt where
   now : Nat := 0
   keys : List KeyQ := []       -- creation order
   arrivals : List Nat := []    -- global ids in arrival order
-  mode : Nat := 0              -- 0 none, 1 burst, 2 sequential
+  mode : Nat := 0              -- 0 none, 1 burst, 2 sequential, 3 real clock
+  file : Bool := false         -- policies-file case
+  decls : List Decl := []
+  loaded : Bool := false
+  accepted : Bool := false
 
 def gidOf (k : KeyQ) (r : Nat) : Nat := k.gids.getD r 0
 
@@ -148,12 +152,62 @@ def ptickLoop (p : PSt) (target : Nat) : Nat → PSt × List String → PSt × L
             ptickLoop p' target fuel (p', evs ++ [s!"x{gidOf k r}@{p.now}:early:429"])
           | none => (p, evs ++ ["model-error"])
 
+/-- One request through the plugin for queue key `ck` configured as `kcfg` with TTL `ttl`. -/
+def doReq (p : PSt) (id prio ck : Nat) (kcfg : Cfg) (ttl : Nat) : PSt × String :=
+  let k : KeyQ := (p.keys.find? (·.key == ck)).getD ⟨ck, kcfg, init kcfg p.now, [], p.now⟩
+  match step kcfg k.s (.enq prio ttl) with
+  | some (s', .enq _ _ res rel) =>
+    let r := k.s.reqs.length
+    let k' : KeyQ := { k with gids := k.gids ++ [id] }
+    let s1 := (applyAll kcfg s' ((rel.filter (fun x => (phaseOf k.s.reqs x).isParked)).map .finish)).getD s'
+    let (s2, a) : State × String := match res with
+      | .pass => (s1, "noop")
+      | .full => (s1, "early:429")
+      | .push =>
+        if ttl = 0 then ((applyAll kcfg s1 [.park r, .expire r, .finish r]).getD s1, "early:429")
+        else ((applyAll kcfg s1 [.park r]).getD s1, "waiting")
+    let k'' := { k' with s := s2 }
+    ({ p with mode := 2, keys := setKey p.keys k'', arrivals := p.arrivals ++ [id] },
+     s!"{a} done={fmtDone k' rel ","} c={fmtCounts s2.reqs}")
+  | _ => (p, "model-error")
+
+def parseDecl (ws : List String) : Option Decl := do
+  let ep ← kvNat ws "ep"
+  let name ← kvNat ws "name"
+  let q ← kvNat ws "quota"
+  let w ← kvNat ws "winsec"
+  let sz ← kvNat ws "size"
+  let ttl ← kvNat ws "ttlsec"
+  pure ⟨ep, name, q, w, sz, ttl⟩
+
+def parsePrios (s : String) : Option (List Nat) := do
+  let ps ← (s.splitOn ",").mapM String.toNat?
+  if ps.length > 12 || ps.any (· > 7) then none else pure ps
+
+/-- Model of a real-clock burst: distinct increasing timestamps (1 ns apart), quota 1 per window. -/
+def realBurstModel (win : Nat) (prios : List Nat) : List Nat :=
+  let cfg : Cfg := ⟨1, win, prios.length + 1⟩
+  let ttl := 60000000000
+  let arrive (s : State) (ip : Nat × Nat) : State :=
+    (applyAll cfg s [.tick 1, .enq ip.2 ttl, .park (ip.1 + 1)]).getD s
+  let s0 := (applyAll cfg (init cfg 0) [.enq 0 ttl]).getD (init cfg 0)
+  let s1 := (List.zip (List.range prios.length) prios).foldl arrive s0
+  let rec drain : Nat → State → List Nat → List Nat
+    | 0, _, acc => acc
+    | fuel + 1, s, acc =>
+      match step cfg { s with now := s.rollDue } .roll with
+      | some (s', .roll rel) => drain fuel s' (acc ++ rel.map (· - 1))
+      | _ => acc
+  drain prios.length s1 []
+
+def fmtOrder (xs : List Nat) : String := ",".intercalate (xs.map toString)
+
 def pStep (p : PSt) (line : String) : PSt × String :=
   match words line with
   | "pburst" :: ws =>
     match kvNat ws "k", kvNat ws "rounds" with
     | some k, some r =>
-      if p.mode == 2 || k == 0 || r == 0 || k > 64 || r > 1000 then (p, "bad-op") else
+      if p.file || p.mode == 3 || p.mode == 2 || k == 0 || r == 0 || k > 64 || r > 1000 then (p, "bad-op") else
       let (pass, wait, rej) := burstModel p.cfg p.now p.ttl k
       ({ p with mode := 1 },
        s!"rounds={r} created=1..1 pass={pass}..{pass} wait={wait}..{wait} rej={rej}..{rej} other=0..0")
@@ -161,37 +215,51 @@ def pStep (p : PSt) (line : String) : PSt × String :=
   | "preq" :: ws =>
     match kvNat ws "id", kvNat ws "key", kvNat ws "p" with
     | some id, some key, some prio =>
-      if p.mode == 1 || prio ≥ 8 || p.arrivals.contains id then (p, "bad-op") else
+      if p.file || p.mode == 1 || p.mode == 3 || prio ≥ 8 || p.arrivals.contains id then (p, "bad-op") else
       match keyOfReq p.cfg ws key with
       | none => (p, "bad-op")
-      | some (ck, kcfg) =>
-      let k : KeyQ := (p.keys.find? (·.key == ck)).getD ⟨ck, kcfg, init kcfg p.now, [], p.now⟩
-      match step kcfg k.s (.enq prio p.ttl) with
-      | some (s', .enq _ _ res rel) =>
-        let r := k.s.reqs.length
-        let k' : KeyQ := { k with gids := k.gids ++ [id] }
-        let s1 := (applyAll kcfg s' ((rel.filter (fun x => (phaseOf k.s.reqs x).isParked)).map .finish)).getD s'
-        let (s2, a) : State × String := match res with
-          | .pass => (s1, "noop")
-          | .full => (s1, "early:429")
-          | .push =>
-            if p.ttl = 0 then ((applyAll kcfg s1 [.park r, .expire r, .finish r]).getD s1, "early:429")
-            else ((applyAll kcfg s1 [.park r]).getD s1, "waiting")
-        let k'' := { k' with s := s2 }
-        ({ p with mode := 2, keys := setKey p.keys k'', arrivals := p.arrivals ++ [id] },
-         s!"{a} done={fmtDone k' rel ","} c={fmtCounts s2.reqs}")
-      | _ => (p, "model-error")
+      | some (ck, kcfg) => doReq p id prio ck kcfg p.ttl
     | _, _, _ => (p, "bad-op")
   | "ptick" :: ws =>
     match kvNat ws "d" with
     | some d =>
-      if p.mode == 1 then (p, "bad-op") else
+      if p.mode == 1 || p.mode == 3 then (p, "bad-op") else
       let target := p.now + d
       let fuel := (d / 1000000000 + 2) * (p.keys.length + 1) + p.arrivals.length + 2
       let (p', evs) := ptickLoop p target fuel (p, [])
       let p'' := tickAll p' target
       ({ p'' with mode := 2 }, s!"now={target} ev={if evs.isEmpty then "-" else ";".intercalate evs}")
     | none => (p, "bad-op")
+  | "frem" :: ws =>
+    match parseDecl ws with
+    | some d =>
+      if !p.file || p.loaded || d.ep > 20 || d.name > 50 || p.decls.length ≥ 20 then (p, "bad-op")
+      else ({ p with decls := p.decls ++ [d] }, "ok")
+    | none => (p, "bad-op")
+  | ["fload"] =>
+    if !p.file || p.loaded then (p, "bad-op") else
+    match fileVerdict p.decls with
+    | .accepted => ({ p with loaded := true, accepted := true }, s!"accepted remedies={p.decls.length}")
+    | .duplicateNames => ({ p with loaded := true }, "refused:duplicate-names")
+    | .other => ({ p with loaded := true }, "refused:other")
+  | "freq" :: ws =>
+    match kvNat ws "id", kvNat ws "rem", kvNat ws "p" with
+    | some id, some j, some prio =>
+      if !p.file || !p.accepted || prio ≥ 8 || p.arrivals.contains id then (p, "bad-op") else
+      match p.decls[j]? with
+      | none => (p, "bad-op")
+      | some d => doReq p id prio j ⟨d.quota, d.winsec * 1000000000, d.size⟩ (d.ttlsec * 1000000000)
+    | _, _, _ => (p, "bad-op")
+  | "rclock" :: ws =>
+    match kvNat ws "n" with
+    | some n => if p.mode != 3 || n < 2 || n > 100000 then (p, "bad-op") else (p, "strictly-increasing")
+    | none => (p, "bad-op")
+  | "rburst" :: ws =>
+    match kvNat ws "win", (kv ws "prios").bind parsePrios with
+    | some ms, some prios =>
+      if p.mode != 3 || ms < 5 || ms > 1000 then (p, "bad-op")
+      else (p, s!"order={fmtOrder (realBurstModel (ms * 1000000) prios)}")
+    | _, _ => (p, "bad-op")
   | _ => (p, "bad-op")
 
 structure RunSt where
@@ -214,6 +282,14 @@ def runStep (st : RunSt) (line : String) : RunSt × String :=
     match parsePCfg ws with
     | some (cfg, ttl, t0) => ({ st with plugin := some { cfg := cfg, ttl := ttl, now := t0 } }, "ok")
     | none => (st, "bad-op")
+  | "fcfg" :: ws =>
+    if st.plugin.isSome || st.ready then (st, "bad-op") else
+    match kvNat ws "t0" with
+    | some t0 => ({ st with plugin := some { now := t0, file := true } }, "ok")
+    | none => (st, "bad-op")
+  | ["rcfg"] =>
+    if st.plugin.isSome || st.ready then (st, "bad-op") else
+    ({ st with plugin := some { mode := 3 } }, "ok")
   | op :: ws =>
     if let some p := st.plugin then
       let (p', a) := pStep p line
@@ -375,6 +451,8 @@ structure PJ where
   now : Nat
   keys : List KJ := []
   arrivals : List Nat := []
+  decls : List Decl := []
+  accepted : Bool := false
 
 def KJ.push (cfg : Cfg) (k : KJ) (es : List Ev) : KJ :=
   { k with o := es.foldl (obsStep cfg) k.o, evs := es.reverse ++ k.evs }
@@ -401,6 +479,29 @@ def parseDone (s : String) (sep : String) : Option (List Nat) :=
 def finishEvs (k : KJ) (rel : List Nat) : List Ev :=
   (rel.filter (fun x => (phaseOf k.o.reqs x).isParked)).map (fun x => Ev.finish x true)
 
+def jReq (p : PJ) (id prio ck : Nat) (kcfg : Cfg) (ttl : Nat) (a : String) (done : List Nat) (c out : String) :
+    Except String PJ :=
+  let k0 : KJ := (p.keys.find? (·.key == ck)).getD ⟨ck, kcfg, p.now, Obs.init kcfg p.now, [], []⟩
+  let k := k0.at kcfg p.now
+  match done.mapM (fun g => k.gids.idxOf? g) with
+  | none => .error s!"released-request-of-another-queue-key:{pctEnc out}"
+  | some rel =>
+    let r := k.o.reqs.length
+    let fin := finishEvs k rel
+    let res : Option (List Ev) :=
+      if a == "noop" then some (.enq prio ttl .pass rel :: fin)
+      else if a == "early:429" then
+        if ttl = 0 then some (.enq prio ttl .push rel :: fin ++ [.park r, .expire r, .finish r false])
+        else some (.enq prio ttl .full rel :: fin)
+      else if a == "waiting" then some (.enq prio ttl .push rel :: fin ++ [.park r])
+      else none
+    match res with
+    | none => .error s!"unparsable:{pctEnc out}"
+    | some es =>
+      let k' := { (k.push kcfg es) with gids := k.gids ++ [id] }
+      if c != fmtCounts k'.o.reqs then .error s!"counts-mismatch:{pctEnc out}:expected={fmtCounts k'.o.reqs}"
+      else .ok { p with keys := setKJ p.keys k', arrivals := p.arrivals ++ [id] }
+
 def pjStep (p : PJ) (op out : String) : Except String PJ :=
   let ows := words out
   match words op with
@@ -420,27 +521,7 @@ def pjStep (p : PJ) (op out : String) : Except String PJ :=
     | some id, some key, some prio, some a, some done, some c =>
       match keyOfReq p.cfg ws key with
       | none => .error s!"unparsable:{pctEnc op}"
-      | some (ck, kcfg) =>
-      let k0 : KJ := (p.keys.find? (·.key == ck)).getD ⟨ck, kcfg, p.now, Obs.init kcfg p.now, [], []⟩
-      let k := k0.at kcfg p.now
-      match done.mapM (fun g => k.gids.idxOf? g) with
-      | none => .error s!"released-request-of-another-queue-key:{pctEnc out}"
-      | some rel =>
-        let r := k.o.reqs.length
-        let fin := finishEvs k rel
-        let res : Option (List Ev) :=
-          if a == "noop" then some (.enq prio p.ttl .pass rel :: fin)
-          else if a == "early:429" then
-            if p.ttl = 0 then some (.enq prio p.ttl .push rel :: fin ++ [.park r, .expire r, .finish r false])
-            else some (.enq prio p.ttl .full rel :: fin)
-          else if a == "waiting" then some (.enq prio p.ttl .push rel :: fin ++ [.park r])
-          else none
-        match res with
-        | none => .error s!"unparsable:{pctEnc out}"
-        | some es =>
-          let k' := { (k.push kcfg es) with gids := k.gids ++ [id] }
-          if c != fmtCounts k'.o.reqs then .error s!"counts-mismatch:{pctEnc out}:expected={fmtCounts k'.o.reqs}"
-          else .ok { p with keys := setKJ p.keys k', arrivals := p.arrivals ++ [id] }
+      | some (ck, kcfg) => jReq p id prio ck kcfg p.ttl a done c out
     | _, _, _, _, _, _ => .error s!"unparsable:{pctEnc out}"
   | "ptick" :: ws =>
     match kvNat ws "d", kvNat ows "now", kv ows "ev" with
@@ -476,6 +557,35 @@ def pjStep (p : PJ) (op out : String) : Except String PJ :=
       | .ok p' => .ok { p' with now := n }
       | .error e => .error e
     | _, _, _ => .error s!"unparsable:{pctEnc out}"
+  | "frem" :: ws =>
+    match parseDecl ws with
+    | some d => if out == "ok" then .ok { p with decls := p.decls ++ [d] } else .error s!"unparsable:{pctEnc out}"
+    | none => .error s!"unparsable:{pctEnc op}"
+  | ["fload"] =>
+    let dup := !(decide (p.decls.map (·.name)).Nodup)
+    if ows.head? == some "accepted" then
+      if dup then .error "policies-file-with-the-same-remedy-name-twice-was-accepted"
+      else .ok { p with accepted := true }
+    else if out == "refused:duplicate-names" then
+      if dup then .ok p else .error "policies-file-refused-for-duplicate-names-it-does-not-have"
+    else if out == "refused:other" then .ok p
+    else .error s!"unparsable:{pctEnc out}"
+  | "freq" :: ws =>
+    match kvNat ws "id", kvNat ws "rem", kvNat ws "p", ows.head?, (kv ows "done").bind (parseDone · ","), kv ows "c" with
+    | some id, some j, some prio, some a, some done, some c =>
+      match p.decls[j]? with
+      | none => .error s!"request-for-undeclared-remedy:{pctEnc op}"
+      | some d => jReq p id prio j ⟨d.quota, d.winsec * 1000000000, d.size⟩ (d.ttlsec * 1000000000) a done c out
+    | _, _, _, _, _, _ => .error s!"unparsable:{pctEnc out}"
+  | "rclock" :: _ =>
+    if out == "strictly-increasing" then .ok p
+    else .error s!"production-clock-readings-tie:{pctEnc out}"
+  | "rburst" :: ws =>
+    match (kv ws "prios").bind parsePrios, (kv ows "order").bind (fun o => (o.splitOn ",").mapM String.toNat?) with
+    | some prios, some order =>
+      if burstOrderOk prios order then .ok p
+      else .error s!"release-order-violated-under-the-production-clock:{pctEnc out}"
+    | _, _ => .error s!"unparsable:{pctEnc out}"
   | _ => .error "unknown-op"
 
 def pjFinish (p : PJ) : String :=
@@ -515,6 +625,13 @@ def jtopStep (s : JTop) (op out : String) : JTop :=
       if out == "ok" then { s with pj := some { cfg := cfg, ttl := ttl, now := t0 } }
       else { s with bad := some "cfg-refused" }
     | none => { s with bad := some "unparsable-cfg" }
+  | "fcfg" :: ws =>
+    match kvNat ws "t0" with
+    | some t0 => if out == "ok" then { s with pj := some { cfg := ⟨1, 1, 1⟩, ttl := 0, now := t0 } }
+                 else { s with bad := some "cfg-refused" }
+    | none => { s with bad := some "unparsable-cfg" }
+  | ["rcfg"] =>
+    if out == "ok" then { s with pj := some { cfg := ⟨1, 1, 1⟩, ttl := 0, now := 0 } } else { s with bad := some "cfg-refused" }
   | _ =>
     match s.pj with
     | some p =>
